@@ -97,11 +97,24 @@ def run(ck, pid="C02"):
     # replaying real traces obtained through the CGNS_VERIF hooks (checks/C02b.py, notes/C02b.md)
     if pid == "C02":
         from checks import C02b
+        ck.layer = "C02b"
         C02b.run_extra(ck)
+        # third layer: data chunks and chunk tables of ADF (AdfChunks.v): the byte store refines a plain array for every
+        # history of sized writes, dimension changes, full / block / strided transfers (checks/C02c.py, notes/C02c.md)
+        from checks import C02c
+        ck.layer = "C02c"
+        C02c.run_extra(ck)
+        ck.layer = None
 
 
 def replay(ck, path):
     r = json.load(open(path))
+    if r.get("layer") == "C02c":
+        from checks import C02c
+        return C02c.replay(ck, path)
+    if r.get("layer") == "C02b" or r.get("mode") in ("unit", "api") or "broken_correspondence" in r:
+        from checks import C02b
+        return C02b.replay(ck, path)
     vlib.build_impl(); exe = vlib.build_harness("cgio_h", ["cgio_h.c"]); vlib.build_modelrun("c02")
     script = r.get("script_full") or r.get("script")
     if not script:
